@@ -381,6 +381,12 @@ def override_case(V, spec, P, St, C, cfg):
     da = full['processes']['a']['p0'].get_schema()['S']['n']
     db = full['processes']['b']['p0'].get_schema()['S']['n']
     dl = comp2.generate()['processes']['p0'].get_schema()['S']['n']
+    # the same composer inside a MetaComposer: its _schema still reaches its process
+    from vivarium.core.composer import MetaComposer
+    dm = MetaComposer(composers=[C(dict(cfg, _schema={'p0': {'S': {'n': {'_default': 43}}}}))]).generate()
+    dm = dm['processes']['p0'].get_schema()['S']['n']
+    V.check('override_reaches_named_only', dm.get('_default') == 43,
+            lambda: ('a composer\'s _schema is lost when the composer is used through a MetaComposer', dm))
     V.check('override_reaches_named_only', da.get('_default') == 42 and db.get('_default') == 1 and dl.get('_default') == 1 and
             comp2.schema_override == before,
             lambda: ('an override naming a/p0 also reached b/p0, the composer\'s own _schema or a later generate()',
